@@ -64,23 +64,23 @@ PURE_MODELLED = ["modelled, not verified: Rust slice indexing semantics (start <
 
 PROPS["C15"] = {
     "quick": [("hex15", 60, 12)],
-    "thorough": [("hex15", 3000, 16)],
+    "thorough": [("hex15", 30000, 18)],
     "pure": True,
-    "rule": "exhaustive small scope: every length 0..=12 (thorough 16) x {from_vec, heap, inline with zero / 0xFF / counting padding} x every index 0..len+2 and usize::MAX(-1) x every (start,end) of the six range kinds over the same set, x all pairs for ==, plus boundary and seeded random 64-bit patterns and random byte strings, the narrower From conversions (8/16/32-bit patterns incl. f32 NaN payloads), to_bool/is_empty on every representation, and from_str_bytes/to_utf8 on boundary code points of every encoded width, byte strings that are almost UTF-8 (overlong forms, surrogates, beyond U+10FFFF, truncated, stray continuation bytes) and random texts with one byte damaged; each line also carries the answer of the real byte slice; distinct_nontrivial = distinct operation lines executed",
+    "rule": "exhaustive small scope: every length 0..=12 (thorough 18) x {from_vec, heap, inline with zero / 0xFF / counting padding} x every index 0..len+2 and usize::MAX(-1) x every (start,end) of the six range kinds over the same set, x all pairs for ==, plus boundary and seeded random 64-bit patterns and random byte strings, the narrower From conversions (8/16/32-bit patterns incl. f32 NaN payloads), to_bool/is_empty on every representation, and from_str_bytes/to_utf8 on boundary code points of every encoded width, byte strings that are almost UTF-8 (overlong forms, surrogates, beyond U+10FFFF, truncated, stray continuation bytes) and random texts with one byte damaged; each line also carries the answer of the real byte slice; distinct_nontrivial = distinct operation lines executed",
     "modelled": PURE_MODELLED,
 }
 PROPS["C16"] = {
     "quick": [("concat16", 0, 12)],
-    "thorough": [("concat16", 0, 18)],
+    "thorough": [("concat16", 0, 24)],
     "pure": True,
     "model_variants": ["--concat-repaired"],
-    "rule": "exhaustive: every pair of lengths 0..=12 (thorough 18) in every combination of the representations (from_vec, heap, inline with three paddings); distinct_nontrivial = distinct concat lines executed",
+    "rule": "exhaustive: every pair of lengths 0..=12 (thorough 24) in every combination of the representations (from_vec, heap, inline with three paddings); distinct_nontrivial = distinct concat lines executed",
     "modelled": PURE_MODELLED,
     "partial": ["Props.C16.concat_partial (the code as found satisfies the law only outside the defect class; the full law is proved for concatRepaired and refuted for concatAsFound)"],
 }
 PROPS["C17"] = {
     "quick": [("label17", 600, 3)],
-    "thorough": [("label17", 20000, 4)],
+    "thorough": [("label17", 200000, 4)],
     "pure": True,
     "rule": "all strings of length 0..=3 (thorough 4) over a 14-character alphabet (ASCII letters/digits, + -, alpha, rho, nu, e-acute, a 4-byte character, blank), seeded random strings up to length 10, index texts on both sides of every boundary, canonical label values (Greek, Alpha boundaries, random Str of 2..8) with print-parse and kid() lookups on a real graph; distinct_nontrivial = distinct lines executed",
     "modelled": PURE_MODELLED,
@@ -115,14 +115,14 @@ PROPS["C10"] = {
 RENDER_MODELLED = CORE_MODELLED + ["modelled, not verified: xml-builder's rendering, the format strings of dot.rs/debug.rs/inspect.rs, itertools::sorted, the derived Ord of Label; the real texts are parsed back into records and compared structurally with the model's documents (exact text equality is recorded only)"]
 PROPS["C18"] = {
     "quick": [("render", 200, 80)],
-    "thorough": [("render", 4000, 160)],
+    "thorough": [("render", 12000, 160)],
     "rule": "graphs out of bind-heavy histories (after collections, never-added slots, re-added ids, both Hex representations, empty data, labels of all three variants), exported three times per history, plus a twin graph with the same content built differently (larger capacity, reverse add/bind order, data never read) whose texts must be identical; non-trivial = a history with at least one collection",
     "nontrivial": "collections",
     "modelled": RENDER_MODELLED,
 }
 PROPS["C20"] = {
     "quick": [("render", 200, 80)],
-    "thorough": [("render", 4000, 160)],
+    "thorough": [("render", 12000, 160)],
     "rule": "as C18; inspect() and v_print() of every present vertex, Debug and Display of the graph; cycles, diamonds and self-reaching vertices occur by random binding among <= 20 ids (the count of inspect texts with ellipsis marks is reported); a missing answer (abort, stack overflow, time-out) is attributed to the call; non-trivial = a history with at least one collection",
     "nontrivial": "collections",
     "modelled": RENDER_MODELLED,
@@ -132,7 +132,7 @@ PROPS["C20"] = {
 ALGO_MODELLED = CORE_MODELLED + ["modelled, not verified: the iteration order of HashSet/HashMap (the closure theorem holds for every drain order; the mapping table is only looked up), anyhow error texts (the ids after 'missed:' are extracted)"]
 PROPS["C11"] = {
     "quick": [("merge", 400, 0)],
-    "thorough": [("merge", 12000, 0)],
+    "thorough": [("merge", 60000, 0)],
     "rule": "pairs of random rooted labelled trees (1..7 vertices each, 1..4 labels so that paths overlap, random data placement in both Hex representations, random injections of ids into the capacity, some data of the left tree already read), every choice of `left`; observe before and after, then every present vertex of the left graph is read (drain) and compared with the reference run of the same algorithm; non-trivial = a history whose merge created or matched at least one vertex (>= 5 judged calls)",
     "nontrivial": "any5",
     "modelled": ALGO_MODELLED,
@@ -140,14 +140,14 @@ PROPS["C11"] = {
 }
 PROPS["C12"] = {
     "quick": [("mergebroken", 400, 0), ("merge", 100, 0)],
-    "thorough": [("mergebroken", 12000, 0), ("merge", 2000, 0)],
+    "thorough": [("mergebroken", 50000, 0), ("merge", 10000, 0)],
     "rule": "right graphs made of a tree plus an isolated vertex / a detached two-vertex sub-tree / an isolated vertex with data / a `right` that is not the root; every left tree and `left`; Ok is accepted only if every present vertex of the right graph is reachable from `right`, on Err the named ids must be exactly the unreachable ones; non-trivial = >= 5 judged calls",
     "nontrivial": "any5",
     "modelled": ALGO_MODELLED,
 }
 PROPS["C13"] = {
     "quick": [("slice", 200, 40)],
-    "thorough": [("slice", 6000, 60)],
+    "thorough": [("slice", 25000, 60)],
     "rule": "digraphs of 2..14 vertices built through real calls (cycles, shared targets, parallel labels up to N = 16), four slices per graph from random start vertices with random rejection tables (edges rejected on one path and accepted on another included); the sliced graph and the source are observed afterwards; non-trivial = a history with >= 5 judged calls; the number of slices whose kept part contains a back edge is reported",
     "nontrivial": "any5",
     "modelled": ALGO_MODELLED,
@@ -156,7 +156,7 @@ PROPS["C13"] = {
 
 PROPS["C14"] = {
     "quick": [("script", 300, 12), ("scriptfault", 500, 6)],
-    "thorough": [("script", 8000, 20), ("scriptfault", 12000, 8)],
+    "thorough": [("script", 40000, 20), ("scriptfault", 60000, 8)],
     "rule": "abstract programs of ADD/BIND/PUT over literal ids and $variables, valid against the reference, rendered with random legal formatting (Unicode white space and newlines around commands and arguments, comments with structural characters inside, blanks before '(', optional nu prefix, hex digits in random case with dashes/blanks/newlines between them); the text is deployed on one graph, the same calls are issued directly on a second one, both are observed, compared and drained; plus single-fault corruptions (one character deleted / inserted / replaced) classified by the model's parser; non-trivial = a history with >= 5 judged calls",
     "nontrivial": "any5",
     "modelled": CORE_MODELLED + ["modelled, not verified: the regex crate's semantics for the four patterns of script.rs (hand-written recognisers), str::trim (White_Space table), str::split, usize::from_str, u8::from_str_radix, HashMap as the variable table, anyhow's context text (the command number is extracted)"],
